@@ -25,6 +25,7 @@ as the independent reference; dense Gram / sinc-matrix residuals; sign rules res
 import os, sys, atexit, shutil, subprocess, tempfile, importlib.util, importlib.machinery
 from fractions import Fraction as Fr
 import numpy as np
+import blas1  # noqa: one BLAS thread (oversubscribed machines: 9 s per small dense solve otherwise)
 import common
 from common import Case, Failure, f2x, flist, parse_flist, close_vec
 
@@ -34,12 +35,16 @@ RULE = ('tridisolve: random symmetric tridiagonal systems (sizes 1..40 quick / .
         'random, and Slepian-shifted families; e of length N or N-1; both overwrite modes) x 3 solver forms + exact '
         'Fraction systems through the fallback; dpss: (N, NW, K) points with N in 8..256 (quick) / 8..4096 (thorough), both '
         'parities, NW in {1,1.5,..,8}, NW < N/4, K <= 2NW, plus interp_from / interp_kind options; distinct = distinct '
-        'protocol line; non-trivial = right-hand side / taper not all zero')
+        'protocol line; non-trivial = right-hand side / taper not all zero; corners: zero-pivot points (11,2), (15,3.5), (29,7), (61,2.5), N = 4NW+1..+3, NW not a '
+        'multiple of 0.5; every judged dpss_windows call comes after a seeded call HISTORY with the same (N, NW) (other interp_from / interp_kind / Kmax / NW / '
+        'low_bias / NFFT values, every returned array overwritten in place) that the oracle and the replay redo; tridisolve operands also as float32 / int / '
+        'big-endian / read-only / strided (refusal or the right solution); tridi_inverse_iteration with x0 omitted / other rtol')
 ASSUMPTIONS = ['tridisolve: b non-empty, len(d) >= len(b), len(e) >= len(b)-1, pivots non-zero (theorem hypothesis; the '
                'generated systems keep |pivot| > 1e-3 of the diagonal scale, others are skipped and counted)',
                'Float instance of the polymorphic model approximates the field instance the theorem is about (unproved; 1e-9 comparison)',
                'dpss clauses "k-th eigenvector of the sinc kernel / ordering / range / agreement with the reference" are CERTIFICATE checks per run, not theorems']
-TRUSTED_EXTRA = ['harness/translate_c07.py: the stripping of Cython typing from _utils.pyx (cdef declarations, typed signature, xrange) before ast parsing',
+TRUSTED_EXTRA = ['harness/translate_c07.py: a leading `if <test>: raise …` in tridisolve is read as a domain restriction (echoed as GUARD, not modelled)',
+                 'harness/translate_c07.py: the stripping of Cython typing from _utils.pyx (cdef declarations, typed signature, xrange) before ast parsing',
                  'scipy.linalg.eigvals_banded (LAPACK) and the convergence of tridi_inverse_iteration: not modelled, monitored by residual certificates',
                  'scipy.signal.windows.dpss as independent reference; scipy.interpolate.interp1d(kind=linear) modelled by its documented semantics',
                  'np.sinc, np.sin, np.sqrt = the binary64 library functions used by the Float instance',
@@ -377,6 +382,46 @@ def run_history(ops, N, NW, via=None):
     return raised
 
 
+def reference_set(N, NW, K, M=None, kind=None):
+    """independent reference for a request: scipy.signal.windows.dpss, interpolated (np.interp / interp1d) and rescaled
+    when interp_from is given"""
+    from scipy.signal.windows import dpss as ref_dpss
+    if M is None:
+        return np.atleast_2d(ref_dpss(N, NW, K))
+    from scipy import interpolate as _ip
+    rv = np.atleast_2d(ref_dpss(M, NW, K))
+    xs, xi = np.arange(M), np.linspace(0, M - 1, N, endpoint=False)
+    want = np.array([np.interp(xi, xs, row) if kind == 'linear' else _ip.interp1d(xs, row, kind=kind)(xi) for row in rv])
+    return want / np.sqrt((want ** 2).sum(axis=1))[:, None]
+
+
+def history_flags(N, NW, K, hs):
+    """the model's memo object (`Model/C07Hist.lean`, discipline `today`) against the real call history: one event per
+    dpss_windows request of the perturbation phase + the judged request, every result scribbled on after it was judged;
+    flag 1 iff the answer is the recomputed (reference) value.  Returns (protocol line, impl string)"""
+    from histories import scribble
+    import nitime.utils as u
+    import warnings
+    evs, flags = [], []
+    ops = [op for op in history_ops(N, NW, K, hs) if op[0] in ('interp', 'plain')] + [['plain', float(NW), K]]
+    with warnings.catch_warnings():
+        warnings.simplefilter('ignore')
+        for op in ops:
+            if op[0] == 'interp':
+                K_, M_, kind_, NW_ = op[1], op[2], op[3], NW
+                res = u.dpss_windows(N, NW, K_, interp_from=M_, interp_kind=kind_)
+            else:
+                NW_, K_, M_, kind_ = op[1], op[2], None, None
+                res = u.dpss_windows(N, NW_, K_)
+            want = reference_set(N, NW_, K_, M_, kind_)
+            v = np.asarray(res[0], dtype='d')
+            flags.append('1' if v.shape == want.shape and np.abs(v - want).max() <= 1e-6 else '0')
+            req = '%d:%d:%d:%d:%d' % (N, int(round(NW_ * 100)), K_, M_ or 0, (INTERP_KINDS.index(kind_) + 1) if kind_ else 0)
+            evs += ['c:' + req, 's:' + req]
+            scribble(res)
+    return 'C07 hist today ' + ' '.join(evs), 'ok ' + ','.join(flags)
+
+
 def apply_history(m):
     """run the history a meta / replay dict names (key 'hist'), if any"""
     if m.get('hist') is None:
@@ -472,6 +517,10 @@ def cases(rng, tier, seed):
             k = rng.randrange(K)
             out.append(Case('C07 conc %d %s %s' % (N, f2x(NW), flist(v[k])), 'ok ' + flist([e[k]]), 'dpss/concentration',
                             cmp=cmp_two(1e-9), meta=dict(meta, k=k)))
+        if N <= 128 and len([1 for c_ in out if c_.clause == 'dpss/history-model']) < (12 if big else 4):
+            rh = common.call(lambda: history_flags(N, NW, K, meta['hist']))
+            if not isinstance(rh, str):
+                out.append(Case(rh[0], rh[1], 'dpss/history-model', meta=meta))
         # low_bias selection through tapered_spectra
         s = common.np_rng(PID, seed, 'lb%d' % N).randn(N)
         r2 = common.call(lambda: u.tapered_spectra(s, (NW, K), low_bias=True))
@@ -696,6 +745,48 @@ def check_dpss(m, certs, case=None):
     return None
 
 
+def _tridi_dtype_one(form, fn, kind, which, ow, sys_, rep, bad):
+    d, e, b = sys_
+
+    def conv(a):
+        if kind == 'bigendian':
+            return a.astype('>f8')
+        if kind == 'readonly':
+            a = a.copy()
+            a.flags.writeable = False
+            return a
+        if kind == 'strided':
+            return np.repeat(a, 2)[::2]
+        return a.astype(kind)
+    dd, ee = (conv(d), conv(e)) if which in ('all', 'de') else (d.copy(), e.copy())
+    bb = conv(b) if which in ('all', 'b') else b.copy()
+    d64, e64, b64 = (np.array(a, dtype='d') for a in (dd, ee, bb))
+    ref = np.linalg.solve(np.diag(d64) + np.diag(e64[:-1], 1) + np.diag(e64[:-1], -1), b64)
+    what = '%s tridisolve on %s operands (%s, overwrite_b=%s)' % (form, kind, which, ow)
+    try:
+        import warnings
+        with warnings.catch_warnings():
+            warnings.simplefilter('ignore')
+            x = fn(dd, ee, bb, overwrite_b=ow)
+    except (TypeError, ValueError):
+        if not (np.array_equal(d64, dd) and np.array_equal(e64, ee) and np.array_equal(b64, bb)):
+            return bad(what + ' refused the operands but modified them')
+        return None
+    except Exception as ex:
+        return bad(what + ' raised ' + type(ex).__name__)
+    got = bb if ow else x
+    if got is None:
+        return bad(what + ' returned nothing')
+    tol = 1e-4 if kind == 'float32' else 1e-9
+    if not np.allclose(np.asarray(got, dtype='d'), ref, rtol=tol, atol=tol * max(1.0, np.abs(ref).max())):
+        return Failure('robust/tridi/dtype/%s/%s-operands-wrong-solution' % (form, 'integer' if kind.startswith(('int', 'uint')) else kind),
+                       what + ' silently returns %s; the system defined by the operand values has the solution %s' % (
+                           np.asarray(got).tolist()[:4], np.round(ref, 6).tolist()[:4]), rep)
+    if not (np.array_equal(d64, dd) and np.array_equal(e64, ee)) or (not ow and not np.array_equal(b64, bb)):
+        return bad(what + ' modified its inputs')
+    return None
+
+
 def robust(name, sd):
     """second-wave classes: repeated calls with the same argument objects, input overwritten in place
     between calls, strided / Fortran-ordered / transposed-view inputs, results not aliasing inputs or
@@ -748,6 +839,22 @@ def robust(name, sd):
             got, _ = u.tapered_spectra(arr, (NW, K), low_bias=False)
             if not np.allclose(got, ref, rtol=1e-12, atol=1e-12 * np.abs(ref).max()):
                 return bad('tapered_spectra on a %s input differs from the C-contiguous result' % lab)
+        # precomputed tapers (ndarray, also read-only / strided / float32) = the (NW, K) route without low-bias selection
+        v, _ = dpss_call(N, NW, K)
+        vro = v.copy()
+        vro.flags.writeable = False
+        for lab, tp in (('ndarray', v.copy()), ('read-only', vro), ('strided', np.repeat(v, 2, axis=1)[:, ::2])):
+            got, ev = u.tapered_spectra(s.copy(), tp, low_bias=bool(nr.rand() < 0.5))
+            if ev is not None or not np.allclose(got, ref, rtol=1e-12, atol=1e-12 * np.abs(ref).max()):
+                return bad('tapered_spectra with precomputed tapers (%s) differs from the (NW, K) route' % lab)
+        # dtype families of the signal (class L1): the same numbers as int16 / int32 / float32 / big-endian / read-only
+        from histories import dtype_family
+        for lab, sv in dtype_family(s, None, ('int16', 'int32', 'float32', 'bigendian', 'readonly')):
+            want, _ = u.tapered_spectra(np.array(sv, dtype='d'), (NW, K), low_bias=False)
+            got, _ = u.tapered_spectra(sv, (NW, K), low_bias=False)
+            tol = 1e-5 if lab == 'float32' else 1e-12
+            if not np.allclose(got, want, rtol=tol, atol=tol * np.abs(want).max()):
+                return bad('tapered_spectra on %s data differs from the result on the same numbers as float64' % lab)
         return None
     if name == 'dpss/handed-out':
         # class L6: what was handed out earlier still holds what it held after ANY later call; a later call is not
@@ -794,52 +901,16 @@ def robust(name, sd):
         d, e, b = gen_system(nr, False)
         while not pivots_ok(d, e, b) or len(e) != len(b) or len(b) < 2:
             d, e, b = gen_system(nr, False)
-        kind = str(nr.choice(['float32', 'int32', 'int64', 'bigendian', 'readonly', 'strided', 'uint8']))
-        which = str(nr.choice(['all', 'b', 'de']))
-        ow = bool(nr.rand() < 0.5)
-        if kind in ('int32', 'int64', 'uint8'):
-            # integer-valued, diagonally dominant system
-            e = np.round(nr.uniform(1, 4, len(b)))
-            d = np.abs(e) + np.abs(np.r_[0, e[:-1]]) + np.round(nr.uniform(1, 5, len(b)))
-            b = np.round(nr.uniform(1, 20, len(b)))
-
-        def conv(a):
-            if kind == 'bigendian':
-                return a.astype('>f8')
-            if kind == 'readonly':
-                a = a.copy()
-                a.flags.writeable = False
-                return a
-            if kind == 'strided':
-                return np.repeat(a, 2)[::2]
-            return a.astype(kind)
-        dd, ee = (conv(d), conv(e)) if which in ('all', 'de') else (d.copy(), e.copy())
-        bb = conv(b) if which in ('all', 'b') else b.copy()
-        d64, e64, b64 = (np.array(a, dtype='d') for a in (dd, ee, bb))
-        ref = np.linalg.solve(np.diag(d64) + np.diag(e64[:-1], 1) + np.diag(e64[:-1], -1), b64)
-        what = '%s tridisolve on %s operands (%s, overwrite_b=%s)' % (form, kind, which, ow)
-        try:
-            import warnings
-            with warnings.catch_warnings():
-                warnings.simplefilter('ignore')
-                x = fn(dd, ee, bb, overwrite_b=ow)
-        except (TypeError, ValueError):
-            if not (np.array_equal(d64, dd) and np.array_equal(e64, ee) and np.array_equal(b64, bb)):
-                return bad(what + ' refused the operands but modified them')
-            return None
-        except Exception as ex:
-            return bad(what + ' raised ' + type(ex).__name__)
-        got = bb if ow else x
-        if got is None:
-            return bad(what + ' returned nothing')
-        tol = 1e-4 if kind == 'float32' else 1e-9
-        if not np.allclose(np.asarray(got, dtype='d'), ref, rtol=tol, atol=tol * max(1.0, np.abs(ref).max())):
-            rep['sub'] = 'wrong'
-            return Failure('robust/tridi/dtype/%s/%s-operands-wrong-solution' % (form, 'integer' if kind.startswith(('int', 'uint')) else kind),
-                           what + ' silently returns %s; the system defined by the operand values has the solution %s' % (
-                               np.asarray(got).tolist()[:4], np.round(ref, 6).tolist()[:4]), rep)
-        if not (np.array_equal(d64, dd) and np.array_equal(e64, ee)) or (not ow and not np.array_equal(b64, bb)):
-            return bad(what + ' modified its inputs')
+        d_f, e_f, b_f = d, e, b
+        e_i = np.round(nr.uniform(1, 4, len(b)))              # integer-valued, diagonally dominant system for the integer kinds
+        d_i = np.abs(e_i) + np.abs(np.r_[0, e_i[:-1]]) + np.round(nr.uniform(1, 5, len(b)))
+        b_i = np.round(nr.uniform(1, 20, len(b)))
+        for kind in ('float32', 'int32', 'int64', 'uint8', 'bigendian', 'readonly', 'strided'):
+            for which in ('all', 'b', 'de'):
+                for ow in (False, True):
+                    f = _tridi_dtype_one(form, fn, kind, which, ow, (d_i, e_i, b_i) if kind in ('int32', 'int64', 'uint8') else (d_f, e_f, b_f), rep, bad)
+                    if f is not None:
+                        return f
         return None
     if name == 'inviter/options':
         # class L3: tridi_inverse_iteration with x0 omitted (random start), x0 given, other rtol, read-only d / e: the result is
@@ -902,7 +973,7 @@ def robust(name, sd):
 
 ROBUST = ['dpss/repeat', 'dpss/handed-out', 'inviter/options', 'tapered/same-object', 'tapered/layout', 'tridi/layout/compiled', 'tridi/layout/purepy',
           'tridi/layout/rebuilt', 'tridi/dtype/compiled', 'tridi/dtype/purepy', 'tridi/dtype/rebuilt']
-ROBUST_REPEAT = {'tridi/dtype/compiled': 4, 'tridi/dtype/purepy': 6, 'tridi/dtype/rebuilt': 3}
+ROBUST_REPEAT = {}
 
 
 def oracle(rng, tier, seed, focus, cases_=None):
@@ -931,7 +1002,9 @@ def oracle(rng, tier, seed, focus, cases_=None):
     n_fb = 0
     for key in sorted(k for k in seen_pts if k[3] is None and k[4] is None and k[0] <= (1024 if big else 300))[:(120 if big else 25)]:
         n_fb += 1
-        f = check_dpss({'kind': 'dpss', 'N': key[0], 'NW': key[1], 'K': key[2], 'via': 'purepy', 'hist': rng.randint(0, 10 ** 6)}, certs)
+        # the call history runs through the fallback too (its module has its own globals); every request costs seconds in pure Python for long tapers
+        hs = rng.randint(0, 10 ** 6)
+        f = check_dpss({'kind': 'dpss', 'N': key[0], 'NW': key[1], 'K': key[2], 'via': 'purepy', 'hist': hs if key[0] <= 200 else None}, certs)
         if f:
             fails.append(f)
     # interp_kind options: unit norm only (the interpolants are external)
@@ -940,7 +1013,7 @@ def oracle(rng, tier, seed, focus, cases_=None):
         NW = rng.choice([1, 1.5, 2, 2.5, 3, 4])
         K = rng.randint(1, int(2 * NW))
         M = rng.randint(max(16, int(4 * NW) + 2), N - 1)
-        kind = rng.choice(['linear', 'nearest', 'zero', 'slinear', 'quadratic', 'cubic'])
+        kind = rng.choice(['linear', 'nearest', 'zero', 'slinear', 'quadratic', 'cubic', 2, 3])      # names and integer spline orders
         f = check_dpss({'kind': 'dpss', 'N': N, 'NW': NW, 'K': K, 'M': M, 'interp': kind, 'hist': rng.randint(0, 10 ** 6)}, certs)
         if f:
             fails.append(f)
